@@ -9,6 +9,7 @@ package main
 
 import (
 	"bytes"
+	"encoding/json"
 	"fmt"
 	"reflect"
 	"runtime/debug"
@@ -31,6 +32,11 @@ func bindPrefixes(c map[string]interface{}) bindRes {
 	text := []byte(docText(J, 0))
 	seed := intOf(c["seed"])
 	debug.SetPanicOnFault(true)
+	// C02 on typed destinations: a well-formed document that opens with a container or a string and does not end in a blank
+	// has no proper prefix that is a document (GenLex!PrefixFree) - every truncation must be rejected.  Decided only where the
+	// specification's document (no non-JSON atoms) and encoding/json.Valid agree, and only on the heap placement.
+	mustReject := lexPlace == "" && len(text) > 0 && strings.IndexByte("{[\"", text[0]) >= 0 && wellFormedDoc(J) && json.Valid(text) &&
+		strings.IndexByte(" \t\r\n", text[len(text)-1]) < 0
 	var details []string
 	n := len(text)
 	if n > 200 {
@@ -82,6 +88,21 @@ func bindPrefixes(c map[string]interface{}) bindRes {
 					}
 					continue
 				}
+				if mustReject && cut < len(text) && errX == nil {
+					if json.Valid(pre) {
+						if len(res.Oracle) < 2 {
+							res.Oracle = append(res.Oracle, bindBad{Kind: "oracle_prefix", Type: tsig, Doc: jsig, Text: string(pre)})
+						}
+					} else if len(res.Bad) < 4 {
+						kind := "malformed_accepted"
+						if unterminatedString(string(pre)) >= 32 {
+							kind = "malformed_accepted_unterminated_string_ge32"
+						}
+						res.Bad = append(res.Bad, bindBad{Kind: kind, Type: tsig, Doc: jsig, Text: string(pre), Opts: osig,
+							Want: "an error (truncated document)", Got: []string{"Unmarshal", "UnmarshalFromString"}[ep] + ": nil error, value " + showValue(pg.Elem()),
+							Sig: kind + "|" + tsig + "|" + jsig, Feat: bindFeatures(T, J)})
+					}
+				}
 				es := ""
 				if errX != nil {
 					es = firstLine(errX.Error())
@@ -99,4 +120,28 @@ func bindPrefixes(c map[string]interface{}) bindRes {
 	}
 	res.DG = 0
 	return res
+}
+
+// wellFormedDoc: the specification's document has no non-JSON atom, structural hole or missing member
+func wellFormedDoc(j map[string]interface{}) bool {
+	switch sstr(j["j"]) {
+	case "x", "xs", "none":
+		return false
+	case "qs":
+		return true
+	case "a":
+		for _, e := range seqOf(j["e"]) {
+			if !wellFormedDoc(rec(e)) {
+				return false
+			}
+		}
+	case "o":
+		for _, e := range seqOf(j["m"]) {
+			m := rec(e)
+			if sstr(m["k"]) == "~comma" || !wellFormedDoc(rec(m["v"])) {
+				return false
+			}
+		}
+	}
+	return true
 }
